@@ -3,7 +3,7 @@ from . import wl_roundtrip
 
 PROPERTY = "C11"
 LEVEL = "exploration"
-SCENARIOS = {"boundary": 3, "groups": 1}
+SCENARIOS = {"boundary": 3, "groups": 1, "packet-api": 2}
 TIERS = {"quick": {"runs": 6000, "chunk": 40}, "thorough": {"runs": 50000000, "wall_s": 600, "chunk": 200, "recheck": 16}}
 RULE = ("every frame handed to the simulated transport in the C12 workload (sizes biased "
         "so frames land at MAXSIZE-k..MAXSIZE+k and at 14/15/16 datagrams) is parsed by an "
@@ -18,7 +18,150 @@ ASSUMPTIONS = ["maximum EtherCAT payload taken as 1500 bytes, minimum Ethernet f
 MINE = {"frame-malformed", "frame-position-mismatch", "sterile-differs"}
 
 
+def run_packet_api(tape):
+    """2-3 packets built one after the other in one process through the packet API itself
+    (Packet / SterilePacket: append, append_writer, append_fmmu), with datagrams that fit,
+    just fit and are rejected, the packet being used on after a rejection; every assembled
+    and every sterile frame is put on the simulated wire and judged by the independent
+    parser against what was accepted"""
+    import struct
+    from ebpfcat.ebpfcat import SterilePacket
+    from ebpfcat.ethercat import ECCmd, Packet
+    from sim.bus import parse_ecat
+    from sim.seams import Env
+    from .wl_roundtrip import MAXSIZE, wire_check
+
+    env = Env(tape)
+    world, bus = env.world, env.bus
+    violations = []
+
+    def viol(rule, detail, **params):
+        if not violations:
+            violations.append({"rule": rule, "params": params, "detail": detail})
+
+    READ = [ECCmd.FPRD, ECCmd.APRD, ECCmd.BRD, ECCmd.LRD]
+    WRITE = [ECCmd.FPWR, ECCmd.APWR, ECCmd.BWR, ECCmd.LWR, ECCmd.FPRW, ECCmd.LRW]
+    frames = []
+    hist = []
+
+    def one_packet(pno):
+        sterile = tape.chance("c11/sterile-packet", 70)
+        p = SterilePacket() if sterile else Packet()
+        accepted = []           # (cmd, idx, address tuple, data, preset, writer)
+        size, n = 16, 0
+        target = tape.pick("c11/target-size", [200, 600, 1400, 1500, 1500, 1500])
+        for k in range(2 + tape.draw("c11/ndgrams", 18)):
+            writer = sterile and tape.chance("c11/writer", 45)
+            cmd = tape.pick("c11/cmd", WRITE if writer or not sterile and tape.chance(
+                "c11/plain-write", 40) else READ)
+            room = target - size - 12
+            ln = tape.pick("c11/len", [0, 1, 2, max(0, room), max(0, room + 1), max(0, room - 1),
+                                       tape.draw("c11/len-any", 300), max(0, room + 2)])
+            ln = min(ln, 1600)
+            data = tape.bytes("c11/data", min(ln, 6)) + bytes((k * 29 + i * 7 + 1) & 0xff
+                                                              for i in range(max(0, ln - 6)))
+            data = data[:ln]
+            idx = tape.draw("c11/idx", 256)
+            if cmd in (ECCmd.LRD, ECCmd.LWR, ECCmd.LRW):
+                address = (tape.draw("c11/logical", 1 << 31),)
+            else:
+                address = (tape.draw("c11/adp", 1 << 15), tape.draw("c11/ado", 1 << 16))
+            preset = tape.draw("c11/preset", 4)
+            fits = size + 12 + ln <= MAXSIZE and n < 15
+            try:
+                if sterile and writer:
+                    p.append_writer(cmd, data, idx, *address, counter=preset)
+                elif sterile:
+                    p.append(cmd, data, idx, *address, counter=preset)
+                else:
+                    p.append(cmd, data, idx, *address, wkc=preset)
+                ok = True
+            except OverflowError:
+                ok = False
+                world.count("c11/datagram-rejected")
+            if ok != fits:
+                viol("frame-malformed" if ok else "frame-position-mismatch",
+                     f"packet {pno}: datagram {k} of {ln} bytes was "
+                     f"{'accepted' if ok else 'rejected'} with {size} bytes and {n} datagrams "
+                     f"in the packet", accepted=ok)
+                return
+            if ok:
+                accepted.append((cmd, idx, address, data, preset, writer and sterile))
+                size += 12 + ln
+                n += 1
+        index = 2000 + tape.draw("c11/index", 1 << 20)
+        hist.append((sterile, n, size))
+        try:
+            full = p.assemble(index, 0x88A4)
+        except Exception as e:
+            viol("frame-malformed", f"packet {pno}: assemble raised {type(e).__name__}: {e}",
+                 exception=type(e).__name__)
+            return
+        frames.append(full)
+        err, dg = wire_check(b"\xff" * 6 + b"\x02\0\0\0\0\x01\x88\xa4" + full)
+        if err is not None:
+            viol("frame-malformed", f"packet {pno} ({n} datagrams, {size} bytes): {err}")
+            return
+        if len(dg) != n + 1:
+            viol("frame-malformed", f"packet {pno}: {len(dg) - 1} datagrams on the wire, "
+                 f"{n} were accepted")
+            return
+        pos = 16
+        for d, (cmd, idx, address, data, preset, writer) in zip(dg[1:], accepted):
+            want_addr = address[0] if len(address) == 1 else address[0] | address[1] << 16
+            if (d.cmd, d.idx, d.addr, d.length) != (cmd.value, idx, want_addr, len(data)) \
+                    or full[d.data_pos:d.wkc_pos] != data \
+                    or struct.unpack_from("<H", full, d.wkc_pos)[0] != preset \
+                    or d.hdr_pos != pos:
+                viol("frame-position-mismatch",
+                     f"packet {pno}: datagram at {d.hdr_pos} carries cmd {d.cmd} idx {d.idx} "
+                     f"addr {d.addr:#x} len {d.length} preset "
+                     f"{struct.unpack_from('<H', full, d.wkc_pos)[0]}; accepted was "
+                     f"{cmd.value} {idx} {want_addr:#x} {len(data)} {preset} at {pos}")
+                return
+            if sterile and p.counters.get(d.wkc_pos) != preset:
+                viol("frame-position-mismatch",
+                     f"packet {pno}: counters reports {p.counters.get(d.wkc_pos)} at "
+                     f"{d.wkc_pos}, the datagram's working counter {preset} sits there; "
+                     f"counters = {sorted(p.counters.items())}")
+                return
+            pos = d.wkc_pos + 2
+        if sterile:
+            if set(p.counters) != {d.wkc_pos for d in dg[1:]}:
+                viol("frame-position-mismatch",
+                     f"packet {pno}: counters has positions {sorted(p.counters)}, the "
+                     f"working counters sit at {sorted(d.wkc_pos for d in dg[1:])}")
+                return
+            try:
+                ster = bytes(p.sterile(index, 0x88A4))
+            except Exception as e:
+                viol("sterile-differs", f"packet {pno}: sterile raised {type(e).__name__}: {e}",
+                     exception=type(e).__name__)
+                return
+            frames.append(ster)
+            writers = {d.hdr_pos for d, a in zip(dg[1:], accepted) if a[5]}
+            diff = {i for i in range(max(len(full), len(ster)))
+                    if i >= len(full) or i >= len(ster) or full[i] != ster[i]}
+            nonzero = {w for w in writers if full[w] != 0}
+            if diff != nonzero or any(ster[w] != 0 for w in writers):
+                viol("sterile-differs", f"packet {pno}: sterile and assembled frame differ at "
+                     f"{sorted(diff)}, write datagram command bytes are at {sorted(writers)}")
+
+    with env:
+        for pno in range(2 + tape.draw("c11/npackets", 2)):
+            if violations:
+                break
+            one_packet(pno)
+    import hashlib
+    digest = hashlib.sha256(b"".join(frames)).hexdigest()
+    return {"violations": violations, "stats": dict(world.counters), "digest": digest,
+            "sim_time": 0.0, "schedule": digest, "nontrivial": any(n >= 2 for _, n, _ in hist),
+            "sample": {"scenario": "packet-api", "packets": hist}}
+
+
 def run(tape, scenario):
+    if scenario == "packet-api":
+        return run_packet_api(tape)
     if scenario == "groups":
         # frames (incl. sterile copies) assembled by sync groups in the C18 simulation
         from . import c18
